@@ -452,6 +452,14 @@ def selftest():
         cs, h = q2d_table(m, 3)
         F0 = 0.25 if m == 1 else m * m * float(sp.factorial2(2 * m - 3)) / (2 ** (m + 1) * math.factorial(m - 1))
         close(float(cs[0][0]) / math.sqrt(float(h[0])), 1 / (2 * math.sqrt(F0)), 1e-13, ('Q2d n=0', m))
+    # the same closed form in exact integer arithmetic up to m = 30 (beyond the int64 range of (2m-3)!! and 2^(m+1) (m-1)!)
+    for m in range(2, 31):
+        cs, h = q2d_table(m, 1)
+        df = 1
+        for k in range(2 * m - 3, 0, -2):
+            df *= k
+        F0 = F(m * m * df, 2 ** (m + 1) * math.factorial(m - 1))
+        assert cs[0][0] ** 2 / h[0] == 1 / (4 * F0), ('Q2d n=0 exact', m)
     # index maps: closed forms against brute-force tables
     tab = noll_table(40)
     for j, nm in enumerate(tab, start=1):
